@@ -696,6 +696,11 @@ impl Mon {
             if self.n < c.n {
                 v.push(Script::New);
             }
+            if c.weak_ops {
+                // a Weak to the dying object itself: try to upgrade it (must be None), drop it
+                v.push(Script::UpgradeRoot(o));
+                v.push(Script::DropWeakRoot(o));
+            }
             for t in self.ids() {
                 if t == o || !self.live(t) {
                     continue;
@@ -705,6 +710,7 @@ impl Mon {
                 v.push(Script::Downgrade(t));
                 if c.weak_ops {
                     v.push(Script::UpgradeRoot(t));
+                    v.push(Script::DropWeakRoot(t));
                 }
                 for b in self.ids() {
                     if b == o || !self.live(b) {
